@@ -537,7 +537,13 @@ class C19(Prop):
             "attach_node_right/left_end, add_main/sub_chain_node, list.append, larger grid) and handed to ising_model / flipped_ising_model / *_2D / "
             "create_nearest_neighbour_hamiltonian / nearest_neighbours() with fresh couplings; returned lists and Hamiltonians are mutated by the caller in between; "
             "every build is judged against the harness's own record of the sites and bonds it asked for, and tied to the model on the structure the object reports at "
-            "that moment. non-trivial = at least 2 nodes / sites (histories: at least 2 builds)")
+            "that moment. Explicit parent legs (kind legs_build, oracle-only): stars (1-4 chains of length 1-4) and forks (1-4 main nodes, subchains of length 0-3, random call "
+            "orders) of the plain / state / operator classes with default or arbitrary prefixes, built through add_chain_node / add_main_chain_node / add_sub_chain_node with the "
+            "optional parent_leg argument: the caller's tensors carry the bonds to their future children at ARBITRARY raw axes, every call names the parent's leg (its position "
+            "in the documented current order parent, children as attached, open legs) explicitly or, where it is the first open leg, by the default; all bonds of one dimension "
+            "(45 %, so a wrong leg fits silently) or random dimensions 1..3; judged by identifiers, parents, chain lists, exact dense contraction against the einsum of the "
+            "caller's tensors, and the documented axis order of the public tensors. non-trivial = at least 2 nodes / sites (histories: at least 2 builds; legs_build: at least "
+            "one call whose parent leg is not the first open leg)")
     clauses = [
         ("F", "MPS from_tensor_list (all lengths, all root positions, all tensor lists on which no call raises): node dictionary in closed form: chain site0..site(L-1), "
               "dictionary order, neighbours i-1/i+1, requested root, parents toward the root, tensor axis 0 -> left neighbour, axis 1 -> right neighbour (site 0: axis 0), "
@@ -573,6 +579,10 @@ class C19(Prop):
         # [/ext-C19F]
         ("V", "contraction of the produced networks equals the specified tensor chain / star / fork / product state (dense einsum oracle, exact on integer tensors), independent of root and "
               "padding; from_tensor contracts to the input operator; model builders equal the Kronecker sums; exact dense builders agree with the symbolic ones"),
+        ("V", "explicit parent legs: a star / fork built through add_chain_node / add_main_chain_node / add_sub_chain_node with parent_leg given (any open leg of the parent, on the "
+              "first node of a chain / subchain as well as on later ones, mixed with default calls) is accepted, well-formed, has the documented identifiers, parents and chain lists, "
+              "and contracts to the caller's tensors with every new node's axis 0 bound to the requested axis of its parent (exact on integer tensors); the public tensors have the "
+              "documented axis order (parent, children as attached, open legs in their original order)"),
         ("V", "histories: every model build on an object that was grown (and already used for earlier builds) equals -J sum_<ij> A_i A_j - g sum_i B_i over the sites and bonds "
               "the object has at that moment (term-level: one field term per site, one coupling per bond; dense Kronecker sum up to 9 sites), independent of earlier builds, "
               "earlier nearest_neighbours() calls and caller-side mutation of returned lists / Hamiltonians; documented identifiers hold for arbitrary prefixes up to 40 characters"),
@@ -585,7 +595,8 @@ class C19(Prop):
                     # [/ext-C19F]
                     "identifier strings are rendered by the harness from the labels the model prints (format strings 'site{i}', '{prefix}{c}_{j}', ... copied from the docstrings)",
                     "Python set order in _abstract_ising_model: the single-site block is compared as a multiset"]
-    assumptions = ["constructors are called with parent_leg=None (the default first-open-leg rule); explicit parent legs are not modelled",
+    assumptions = ["the Coq models of the constructors use parent_leg=None (the default first-open-leg rule); explicit parent legs are not modelled: the kind legs_build is "
+                   "judged by the dense oracle only (no model tie), with the harness's own bookkeeping of the documented leg order (parent, children as attached, open legs)",
                    "from_tensor: leg_dict is a bijection nodes -> 0..n-1 and the reference tree has unique identifiers",
                    "histories grow objects only through the public add_* / attach_* methods with qubit tensors carrying spare dimension-1 legs (first-open-leg rule); "
                    "add_parent_to_root is called with a node already linked to its tensor, as the library's own tests do; the Ising term lists of the Coq model are "
@@ -713,6 +724,16 @@ class C19(Prop):
         objs = sorted(GROWERS)
         for j in range((420 if th else 42) * budget_scale):
             cases.append({"kind": "ising_history", "seed": sd(), "obj": objs[j % len(objs)], "builds": rng.choice([2, 2, 3, 4])})
+        # stars / forks whose nodes are attached with an explicit parent_leg (oracle-only: the Coq model has the default rule)
+        for j in range((400 if th else 48) * budget_scale):
+            topo = "fork" if j % 3 else "star"
+            pre = None
+            if rng.random() < 0.4:
+                pre = ([random_prefix(rng, ["main", "m"]) + "M", random_prefix(rng, ["sub", "s"]) + "S"] if topo == "fork"
+                       else [random_prefix(rng, ["center", "central", "c"]) + "C", random_prefix(rng)])
+            cases.append({"kind": "legs_build", "seed": sd(), "topo": topo, "cls": rng.choice(["net", "net", "state", "op"]),
+                          "h": rng.choice([1, 2, 2, 3, 4]), "maxw": rng.choice([0, 1, 2, 3]),
+                          "nch": rng.choice([1, 2, 2, 3, 4]), "maxlen": rng.choice([1, 2, 3, 4]), "prefixes": pre})
         return cases
 
     @staticmethod
@@ -742,6 +763,8 @@ class C19(Prop):
             return case["clen"] >= 1 and case["nch"] >= 1
         if k in ("star_build", "fork_build"):
             return True
+        if k == "legs_build":
+            return self._legs_nondefault(self._legs_plan(case)) >= 1
         if k == "ftps":
             return case["w"] >= 2 and case["h"] >= 2
         if k == "binary":
@@ -770,6 +793,8 @@ class C19(Prop):
                 c[f"{x['kind']}:malformed"] += 1
             if x["kind"] == "ising_history":
                 c[f"ising_history:{x['obj']}"] += 1
+            if x["kind"] == "legs_build":
+                c[f"legs_build:{x['topo']}:{x['cls']}"] += 1
             if isinstance(x.get("prefix"), str):
                 n = len(x["prefix"])
                 c["prefix_len:" + ("0" if n == 0 else "1-8" if n <= 8 else "9-16" if n <= 16 else "17-40")] += 1
@@ -1150,6 +1175,197 @@ class C19(Prop):
                         v = f"contraction differs from the fork of the input tensors (shape {d.shape} vs {ref.shape})"
                 except Exception as e:  # noqa
                     v = f"network not contractible with the documented leg order: {exc_str(e)}"
+        ob["viol"] = v
+        return ob
+
+    # ---- stars / forks built with EXPLICIT parent legs ---------------------------------------------------
+    @staticmethod
+    def _legs_plan(case):
+        """A star or fork whose nodes are attached with the optional `parent_leg` argument of add_chain_node /
+        add_main_chain_node / add_sub_chain_node. The caller's tensors have the new node's parent bond on axis 0 (the
+        constructors attach with child_leg 0) and the bonds to the future children ANYWHERE among the other axes. The harness
+        keeps its own record of every node's current leg order under the documented convention (parent, children in the
+        order they were attached, remaining open legs in their original order) and passes the position of the wanted axis
+        in that order; where this is the first open leg it passes None or the explicit number. Returns
+        (order, parent, raw labels per node, shapes, calls [(node, parent_leg)], open-leg count per node)."""
+        rng = random.Random(case["seed"])
+        topo, cls = case["topo"], case["cls"]
+        order, parent = [], {}
+        if topo == "fork":
+            h = case["h"]
+            subl = [rng.randrange(0, case["maxw"] + 1) for _ in range(h)]
+            if h >= 2 and rng.random() < 0.7:
+                i = rng.randrange(h - 1)                       # a subchain on a main node that also carries the next main node
+                subl[i] = max(1, subl[i])
+            pos = [0] * h
+            nmain = 0
+            while nmain < h or any(pos[i] < subl[i] for i in range(h)):
+                cand = ([("m", nmain)] if nmain < h else []) + [("s", i, pos[i]) for i in range(nmain) if pos[i] < subl[i]]
+                x = rng.choice(cand) if rng.random() < 0.8 else cand[0]
+                order.append(x)
+                if x[0] == "m":
+                    parent[x] = ("m", x[1] - 1) if x[1] > 0 else None
+                    nmain += 1
+                else:
+                    parent[x] = ("m", x[1]) if x[2] == 0 else ("s", x[1], x[2] - 1)
+                    pos[x[1]] += 1
+        else:
+            nch = case["nch"]
+            lens = [rng.randrange(1, case["maxlen"] + 1) for _ in range(nch)]
+            order.append(("c",))
+            parent[("c",)] = None
+            pos = [0] * nch
+            started = 0
+            while any(pos[c] < lens[c] for c in range(nch)):
+                cand = [c for c in range(min(started + 1, nch)) if pos[c] < lens[c]]
+                c = rng.choice(cand) if rng.random() < 0.7 else cand[0]
+                if c == started:
+                    started += 1
+                x = ("a", c, pos[c])
+                order.append(x)
+                parent[x] = ("c",) if pos[c] == 0 else ("a", c, pos[c] - 1)
+                pos[c] += 1
+        children = {x: [y for y in order if parent[y] == x] for x in order}
+        uniform = rng.choice([1, 2, 2, 3]) if rng.random() < 0.45 else None
+        bud = Budget()
+        labels, shapes, nopen = {}, {}, {}
+        bdim = {}
+        for x in order:
+            no = {"net": rng.choice([0, 1, 1, 2]), "state": 1, "op": 2}[cls]
+            nopen[x] = no
+            rest = [("b", x, y) for y in children[x]] + [("o", x, k) for k in range(no)]
+            if rng.random() >= 0.35:
+                # any raw position for the child bonds; the open legs keep their relative order (k = original order)
+                perm = rest[:]
+                rng.shuffle(perm)
+                it = iter([l for l in rest if l[0] == "o"])
+                rest = [l if l[0] == "b" else next(it) for l in perm]
+            labels[x] = ([("b", parent[x], x)] if parent[x] is not None else []) + rest
+            for y in children[x]:
+                bdim[(x, y)] = uniform or rng.choice([1, 2, 3])
+        for x in order:
+            shapes[x] = [bdim[(l[1], l[2])] if l[0] == "b" else (bud.pick(rng, [uniform]) if uniform else bud.pick(rng, [1, 2, 3]))
+                         for l in labels[x]]
+        cur = {x: list(labels[x]) for x in order}
+        nvirt = {x: (0 if parent[x] is None else 1) for x in order}
+        calls = []
+        for x in order:
+            p = parent[x]
+            if p is None:
+                calls.append((x, None))
+                continue
+            k = cur[p].index(("b", p, x))
+            calls.append((x, None if (k == nvirt[p] and rng.random() < 0.5) else k))
+            cur[p].insert(nvirt[p], cur[p].pop(k))
+            nvirt[p] += 1
+        return order, parent, labels, shapes, calls, nopen, cur, nvirt
+
+    @staticmethod
+    def _legs_nondefault(plan):
+        """number of calls whose explicit parent leg is NOT the first open leg of the parent at that moment"""
+        order, parent, labels, shapes, calls, nopen, _, _ = plan
+        cur = {x: list(labels[x]) for x in order}
+        nv = {x: (0 if parent[x] is None else 1) for x in order}
+        n = 0
+        for x, k in calls:
+            p = parent[x]
+            if p is None:
+                continue
+            kk = cur[p].index(("b", p, x))
+            n += (k is not None and kk != nv[p])
+            cur[p].insert(nv[p], cur[p].pop(kk))
+            nv[p] += 1
+        return n
+
+    def _impl_legs_build(self, case):
+        from pytreenet.special_ttn.fttn import ForkTreeTensorNetwork, ForkTreeProductState, ForkTreeProductOperator
+        from pytreenet.special_ttn.star import StarTreeTensorNetwork, StarTreeTensorState, StarTreeOperator
+        plan = self._legs_plan(case)
+        order, parent, labels, shapes, calls, nopen, cur, nvirt = plan
+        nprs = np.random.RandomState(case["seed"] % (2 ** 31))
+        tens = {x: rint(nprs, shapes[x]) for x in order}
+        topo, cls = case["topo"], case["cls"]
+        pa, pb = case["prefixes"] if case["prefixes"] else (None, None)
+        if topo == "fork":
+            klass = {"net": ForkTreeTensorNetwork, "state": ForkTreeProductState, "op": ForkTreeProductOperator}[cls]
+            obj = klass() if pa is None else klass(pa, pb)
+            pa, pb = ("main", "sub") if pa is None else (pa, pb)
+            name = lambda x: f"{pa}{x[1]}" if x[0] == "m" else f"{pb}{x[1]}_{x[2]}"
+        else:
+            klass = {"net": StarTreeTensorNetwork, "state": StarTreeTensorState, "op": StarTreeOperator}[cls]
+            obj = klass() if pa is None else klass(pa, pb)
+            pa, pb = (("center" if cls == "net" else "central"), "node") if pa is None else (pa, pb)
+            name = lambda x: pa if x[0] == "c" else f"{pb}{x[1]}_{x[2]}"
+        nd = self._legs_nondefault(plan)
+        self._stats["legs_build:calls with an explicit parent leg"] += sum(1 for _, k in calls if k is not None)
+        self._stats["legs_build:calls whose parent leg is not the first open leg"] += nd
+        self._stats["legs_build:cases with a non-default parent leg"] += (nd > 0)
+        log = []
+        ob = {"shapes": [[name(x), list(shapes[x])] for x in order], "log": log}
+        try:
+            for x, k in calls:
+                kw = {} if k is None else {"parent_leg": k}
+                t = tens[x].copy()
+                if x[0] == "m":
+                    log.append(f"add_main_chain_node(shape {shapes[x]}{'' if k is None else f', parent_leg={k}'}) -> {name(x)}")
+                    obj.add_main_chain_node(t, **kw)
+                elif x[0] == "s":
+                    log.append(f"add_sub_chain_node(shape {shapes[x]}, {x[1]}{'' if k is None else f', parent_leg={k}'}) -> {name(x)}")
+                    obj.add_sub_chain_node(t, x[1], **kw)
+                elif x[0] == "c":
+                    log.append(f"add_center_node(shape {shapes[x]}) -> {name(x)}")
+                    obj.add_center_node(t)
+                else:
+                    log.append(f"add_chain_node(shape {shapes[x]}, {x[1]}{'' if k is None else f', parent_leg={k}'}) -> {name(x)}")
+                    obj.add_chain_node(t, x[1], **kw)
+        except Exception as e:  # noqa
+            ob["error"] = exc_str(e)
+            ob["viol"] = (f"valid {topo} construction raised {exc_str(e)} at call {len(log)}: {log[-1]} (the requested parent leg is an open leg "
+                          f"of the parent with the dimension of the new node's axis 0); calls so far {log}")
+            return ob
+        v = well_formed(obj)
+        ids = [name(x) for x in order]
+        if v is None and (sorted(obj.nodes) != sorted(ids) or len(set(ids)) != len(ids)):
+            v = f"identifiers {sorted(obj.nodes)} expected {sorted(ids)}"
+        if v is None:
+            for x in order:
+                want = None if parent[x] is None else name(parent[x])
+                if obj.nodes[name(x)].parent != want:
+                    v = f"{name(x)} hangs on {obj.nodes[name(x)].parent}, expected {want}"
+                    break
+        if v is None:
+            if topo == "fork":
+                got = ([n.identifier for n in obj.main_chain], [[n.identifier for n in ch] for ch in obj.sub_chains])
+                hh = case["h"]
+                want = ([name(("m", i)) for i in range(hh)],
+                        [[name(x) for x in sorted(order) if x[0] == "s" and x[1] == i] for i in range(hh)])
+            else:
+                got = [[n.identifier for n in ch] for ch in obj.chains]
+                want = [[name(x) for x in sorted(order) if x[0] == "a" and x[1] == c] for c in range(case["nch"])]
+            if got != want:
+                v = f"chain lists {got}, expected {want}"
+        if v is None:
+            tl = [tens[x] for x in order]
+            lg = [labels[x] for x in order]
+            ref = einsum_ref(tl, lg, [l for x in order for l in labels[x] if l[0] == "o"])
+            try:
+                d = dense_sites(obj, ids)
+                if d is not None and (d.shape != ref.shape or not same_values(d, ref)):
+                    v = (f"contraction differs from the {topo} of the input tensors with every new node bound to the requested leg of its parent "
+                         f"(shape {d.shape} vs {ref.shape}"
+                         + (f", max abs deviation {float(np.max(np.abs(d - ref))):.3g}" if d.shape == ref.shape else "") + f"); calls {log}")
+            except Exception as e:  # noqa
+                v = f"network not contractible with the documented leg order: {exc_str(e)}; calls {log}"
+        if v is None:
+            # documented leg convention on the public tensors: (parent, children in the order attached, open legs in their original order)
+            cp = copy.deepcopy(obj)
+            for x in order:
+                want = tens[x].transpose([labels[x].index(l) for l in cur[x]])
+                got = np.asarray(cp.tensors[name(x)])
+                if got.shape != want.shape or not np.array_equal(got, want):
+                    v = (f"tensor of {name(x)} is not the input tensor with its axes ordered (parent, children as attached, open legs): "
+                         f"expected the input axes {[labels[x].index(l) for l in cur[x]]}; calls {log}")
+                    break
         ob["viol"] = v
         return ob
 
@@ -1990,4 +2206,23 @@ class C19(Prop):
     _c19f_arrays = {}      # [ext-C19F]
 
     def shrink(self, ctx, case, pred):
-        return case
+        if case.get("kind") != "legs_build":
+            return case
+        # a smaller member of the same family (same topology and class, fewer / shorter chains, other plan seeds) that still fails
+        stats = getattr(self, "_stats", None)
+        try:
+            rng = random.Random(case["seed"])
+            a, b = ("h", "maxw") if case["topo"] == "fork" else ("nch", "maxlen")
+            lo = (min(2, case["h"]), min(1, case["maxw"])) if a == "h" else (1, 1)      # forks: stay at >= 2 main nodes with subchains
+            sizes = sorted(((x, y) for x in range(lo[0], case[a] + 1) for y in range(lo[1], case[b] + 1)),
+                           key=lambda p: (p[0] * (1 + p[1]), p))
+            for (x, y) in sizes:
+                for _ in range(12):
+                    c = dict(case, seed=rng.randrange(10 ** 9), prefixes=None)
+                    c[a], c[b] = x, y
+                    if pred(c):
+                        return c
+            return case
+        finally:
+            if stats is not None:
+                self._stats = stats
